@@ -321,6 +321,143 @@ def le_witness_check(rec, rs, drv):
             'objective': ans.get('objective', '-')}
 
 
+# ------------------------------------------------------------------ plants / CHPs with a fuel node, parameters keyed into the data
+def _mkt(rnd, s, name, node, T):
+    from .. import gen
+    return {'type': 'SimpleContract', 'name': name, 'nodes': [node],
+            'args': {'min_cap': -40.0, 'max_cap': 40.0, 'price': gen.price_key(rnd, s['prices'], T)}}
+
+
+def add_fuel_plants(rnd, s, coupled):
+    """appends 1-2 plants / CHPs WITH a fuel node to the scenario (gen.gen_plant draws the parameters) and re-expresses the
+    plant parameters of the whole scenario as keys into the price data / interval dicts (history.vary_data_keys, which also gives
+    plants without fuel node one).  `coupled` False: nothing of the plant links two time steps (no ramp, no minimum run / down
+    time, no start costs / start fuel); one in three of these plants still has 'on' variables (min_cap > 0 or a fuel
+    consumption when on), the others are pure LP plants.  Nodes the plant needs and the portfolio lacks are added with a market."""
+    from .. import gen, scen
+    from . import history as H
+    g = s['grid']
+    T = len(next(iter(s['prices'].values()))) if s['prices'] else scen.make_grid(g).T
+    outer = [n for n in s['nodes'] if not any(n in a.get('inner_nodes', []) for a in s['assets'])]
+    names = set(a['name'] for a in scen.all_asset_specs(s))
+
+    def fresh(prefix):
+        k = 1
+        while '%s%d' % (prefix, k) in names:
+            k += 1
+        names.add('%s%d' % (prefix, k))
+        return '%s%d' % (prefix, k)
+    for _ in range(rnd.choice([1, 1, 2])):
+        chp = rnd.random() < 0.4
+        need = 3 if chp else 2
+        while len(outer) < need:
+            n = 'NX%d' % (len(s['nodes']) + 1)
+            s['nodes'].append(n)
+            outer.append(n)
+            s['assets'].append(_mkt(rnd, s, fresh('mkx'), n, T))
+        nodes = rnd.sample(outer, need)
+        a = gen.gen_plant(rnd, g, s['prices'], T, fresh('fpl'), nodes, chp=chp, allow_mip=coupled)
+        args = a['args']
+        if not coupled:
+            args.pop('ramp', None)
+            args.pop('last_dispatch', None)
+            r = rnd.random()
+            if r < 0.2:
+                args['min_cap'] = gen.q8(rnd, 0.5, 2)
+            elif r < 0.35:
+                args['consumption_if_on'] = rnd.choice(H.KEY_PARAMS['consumption_if_on'][0])
+                if rnd.random() < 0.5:
+                    args['running_costs'] = rnd.choice(H.KEY_PARAMS['running_costs'][0])
+        args.setdefault('fuel_efficiency', rnd.choice(H.KEY_PARAMS['fuel_efficiency'][0]))
+        if rnd.random() < 0.3:
+            gen.put_window(args, gen.window(rnd, g, kinds=['inside', 'start_only', 'end_only', 'straddle_start', 'straddle_end']))
+        s['assets'].append(a)
+    H.vary_data_keys(rnd, s, coupled)
+    return s
+
+
+def has_keyed_plant(s):
+    from .. import scen
+    from . import history as H
+    return any(a['type'] in H.PLANT_TYPES and any(isinstance(a['args'].get(k), str) for k in H.KEY_PARAMS) for a in scen.all_asset_specs(s))
+
+
+# ------------------------------------------------------------------ price data as DataFrame
+def frame_prices(form, prices, tg):
+    """the price data as a DataFrame on the grid: 'to_grid' = Timegrid.prices_to_grid (what io.optimize and the split set-up hand
+    on), 'frame' = a DataFrame with the grid's time points as index built by the caller"""
+    import pandas as pd
+    if form == 'to_grid':
+        return tg.prices_to_grid(prices)
+    return pd.DataFrame({k: list(v) for k, v in prices.items()}, index=tg.timepoints)
+
+
+def frame_check(scn, rec):
+    """first difference between the unsplit problem set up from a dict of arrays (`rec['op']`) and the one a fresh object tree sets
+    up from the same data as DataFrame, or None; an exception of the second set-up is a difference too"""
+    from .. import scen
+    from ..impl import Quiet
+    portf, tg, prices, _ = scen.build(scn)
+    try:
+        with Quiet():
+            op2 = portf.setup_optim_problem(frame_prices(scn['frame'], prices, tg), tg)
+    except Exception as e:
+        return 'the set-up raises %s (%s)' % (type(e).__name__, str(e)[:120])
+    a, b = problem_json(rec['op']), problem_json(op2)
+    for k in ('mapping', 'c', 'l', 'u', 'rows', 'nodal'):
+        if a.get(k) == b.get(k):
+            continue
+        if len(a[k]) != len(b[k]):
+            return '%s: %d entries with arrays, %d with the DataFrame' % (k, len(a[k]), len(b[k]))
+        j = next(i for i in range(len(a[k])) if a[k][i] != b[k][i])
+        return '%s[%d]: %s with arrays, %s with the DataFrame' % (k, j, str(a[k][j])[:160], str(b[k][j])[:160])
+    return None
+
+
+# ------------------------------------------------------------------ the shortcut io.optimize on a portfolio with a history
+def cycle_prices(prices, T):
+    import numpy as np
+    return {k: np.asarray([v[i % len(v)] for i in range(T)], dtype=float) if len(v) else np.zeros(T) for k, v in prices.items()}
+
+
+def shortcut_split(scn, interval):
+    """the split optimisation as the documentation does it - `eaopack.io.optimize(portf, timegrid, data, split_interval_size)` - on
+    a portfolio object that was used before on ANOTHER grid (scn['shortcut']: the other grid and the kind of use: grid set /
+    set up / optimised with the shortcut / written to and read from JSON with the grid).  Returns (output dict, notes);
+    exceptions of the earlier use are notes (the portfolio keeps whatever it got), exceptions of the call itself propagate"""
+    import eaopack as eao
+    from .. import scen
+    from ..impl import Quiet
+    sc = scn['shortcut']
+    portf, tg, prices, _ = scen.build(scn)
+    notes = []
+    tg0 = scen.make_grid(sc['grid'])
+    p0 = cycle_prices(scn.get('prices', {}), tg0.T)
+    with Quiet():
+        try:
+            if sc['use'] in ('set', 'json'):
+                portf.set_timegrid(tg0)
+            elif sc['use'] == 'setup':
+                portf.setup_optim_problem(p0, tg0)
+            elif sc['use'] == 'split':
+                portf.setup_split_optim_problem(p0, tg0, interval_size=interval)
+            else:
+                eao.io.optimize(portf, tg0, p0)
+        except Exception as e:
+            notes.append('earlier-use-raises')
+        if sc['use'] == 'json':
+            try:
+                portf = eao.serialization.load_from_json(eao.serialization.to_json(portf))
+                if not hasattr(portf, 'timegrid'):
+                    notes.append('json-without-grid')
+            except Exception:
+                notes.append('json-raises')
+        if not hasattr(portf, 'timegrid'):
+            portf.set_timegrid(tg0)
+        out = eao.io.optimize(portf, tg, prices, split_interval_size=interval)
+    return out, notes
+
+
 # ------------------------------------------------------------------ development driver / self-test
 class ScratchDriver:
     """development driver: a scratch `Main.lean` run by the Lean interpreter, or a compiled binary"""
